@@ -5,7 +5,8 @@ set -e
 cd "$(dirname "$0")"
 mkdir -p build evidence
 if [ -x extract/run.sh ]; then ./extract/run.sh "${VERIF_REPO:-/repo}" || echo "setup: extractor failed (checks will report it)"; fi
-(cd lean && lake build)
+# a module that does not build must not take the other properties down: every check builds its own targets again
+(cd lean && lake build) || echo "setup: lake build reported failures (the checks concerned will report them)"
 python3 - <<'PY'
 import sys, os
 sys.path.insert(0, '.')
